@@ -94,8 +94,14 @@ PixPicture(bytes, side) ==
 Dims(cs) == CASE cs.fmt = "RAT" -> <<320, 199>> [] cs.fmt = "MGE" -> <<320, 200>> [] cs.fmt = "HRS" -> <<cs.w, cs.h>>
               [] cs.fmt = "CM3" -> <<320, cs.h>> [] cs.fmt = "VEF" -> <<IF cs.veftype = 1 THEN 640 ELSE 320, IF cs.veftype = 1 THEN 400 ELSE 200>>
               [] OTHER -> <<cs.w, cs.h>>
+\* HRS with an odd width: a row is (w + 1) / 2 bytes, the low nibble of its last byte is padding (toy sizes only)
+HrsOddPicture(bytes, w, h, pal) ==
+  LET rb == (w + 1) \div 2
+      col(r, c) == LET v == bytes[r * rb + (c \div 2) + 1] IN Rgb(pal[(IF c % 2 = 0 THEN v \div 16 ELSE v % 16) + 1]) IN
+  FoldLeft(LAMBDA p, q : PushPix(p, col((q - 1) \div w, (q - 1) % w), 1), <<>>, [q \in 1..(w * h) |-> q])
 Expected(cs) ==
   CASE cs.fmt = "MAX" -> MaxPicture(Expand(cs.img), cs.mode, cs.w \div 8)
+    [] cs.fmt = "HRS" /\ cs.w % 2 = 1 -> HrsOddPicture(Expand(cs.img), cs.w, cs.h, EffPal(cs))
     [] cs.fmt = "PIX" -> PixPicture(Expand(cs.img), cs.w)
     [] cs.fmt = "VEF" /\ cs.veftype = 1 -> DoubleRows(Picture2bpp(cs.img, EffPal(cs)), 640)
     [] cs.fmt = "VEF" /\ cs.veftype = 3 -> Picture2bpp(cs.img, EffPal(cs))
